@@ -1054,6 +1054,16 @@ def enum_orders(tier):
                                  "serve": bool(idx % 2), "verbose": False})
                     idx += 1
                     yield case
+    # components with more than 100 nodes per worker: the number of chunks
+    # then exceeds ten per worker (a cap some master loops apply)
+    big = _fixed_net([103, 8], 5)
+    for k, m in enumerate(("newman", "nsi_newman", "nsi_newman_ends")):
+        for size in (2, 3):
+            case = dict(big)
+            case.update({"measures": [m], "size": size, "silence": k % 2,
+                         "schedule": {"kind": ("eager", "reverse")[size - 2]},
+                         "serve": bool(k % 2), "verbose": False})
+            yield case
 
 
 def _all_connected(n):
